@@ -122,6 +122,8 @@ def composites(leaf):
     K("struct_aptrue", obj({"a": s}, ["a"], additionalProperties=True), enf_=False)
     K("struct_apany", obj({"a": s}, ["a"], additionalProperties={}), enf_=False)
     K("struct_apT", obj({"b": INT}, ["b"], additionalProperties=s), enf_=False)
+    K("struct_opt_apT", obj({"a": s}, additionalProperties=INT), enf_=False)       # no required member next to a flattened typed map
+    K("struct_dflt_apT", obj({"b": {"type": "integer", "default": 7}}, additionalProperties=s), enf_=False)
     K("struct_default", obj({"a": s, "b": {"type": "integer", "default": 7}}, ["a"]))
     K("map", {"type": "object", "additionalProperties": s}, enf_=False)
     K("map_pat", {"type": "object", "patternProperties": {"^[a-z]+$": s}, "additionalProperties": False}, ff_=False, enf_=False)
